@@ -80,6 +80,16 @@ HAND.append({"type": "record", "name": "Shape", "namespace": "geo", "fields": [
     {"name": "k", "type": {"type": "enum", "name": "Kind", "symbols": ["A", "B"]}}, {"name": "k2", "type": ["null", "Kind"]}]})
 
 
+# an enum defined inline on a field that has a FIELD default (the enum itself has none): an unknown writer symbol is an error
+HAND.append({"type": "record", "name": "Shirt", "fields": [
+    {"name": "size", "type": {"type": "enum", "name": "Size", "symbols": ["S", "M", "L", "XL"]}, "default": "M"},
+    {"name": "alt", "type": ["null", "Size"], "default": None}, {"name": "n", "type": "int"}]})
+# a record used by name as array items and map values, with two fields (a reader that drops one must skip it everywhere)
+HAND.append({"type": "record", "name": "Holder", "fields": [
+    {"name": "first", "type": {"type": "record", "name": "Inner", "fields": [{"name": "x", "type": "int"}, {"name": "y", "type": "string"}]}},
+    {"name": "arr", "type": {"type": "array", "items": "Inner"}}, {"name": "m", "type": {"type": "map", "values": "Inner"}}]})
+
+
 def has_namespace(s):
     t = json.dumps(s)
     return '"namespace"' in t or any("." in n for n in _names(s))
@@ -212,6 +222,11 @@ def steps(W, first=True):
                             nf = copy.deepcopy(fs)
                             nf.insert(pos, {"name": al, "type": "string"})
                             emit("add-field-named-like-writer-alias-no-default", path, dict(node, fields=nf))
+                for i, f in enumerate(fs):
+                    # an alias the writer never used, on a field that keeps its name - together with a new defaulted field
+                    nf = [dict(copy.deepcopy(x), aliases=["never_used_by_writer", "zz_old"]) if j == i else copy.deepcopy(x) for j, x in enumerate(fs)]
+                    nf.append({"name": "added_too", "type": "string", "default": "dflt"})
+                    emit("unused-alias-plus-added-field", path, dict(node, fields=nf))
                 for pos in (0, len(fs)):
                     nf = copy.deepcopy(fs)
                     nf.insert(pos, {"name": "added", "type": "int", "default": 42})
